@@ -203,6 +203,15 @@ func (c *updater) setAuthExternal(config ConfigValueGetter, auth *hatypes.AuthEx
 	if err != nil {
 		// clean up and try again
 		used := c.haproxy.Backends().BuildUsedAuthBackends()
+		// auth backends configured in the frontend are referenced by the paths of
+		// the hosts, they cannot be released either
+		for _, host := range c.haproxy.Hosts().Items() {
+			for _, path := range host.Paths {
+				if path.AuthExt != nil && path.AuthExt.AuthBackendName != "" {
+					used[path.AuthExt.AuthBackendName] = true
+				}
+			}
+		}
 		c.haproxy.Frontend().RemoveAuthBackendExcept(used)
 		authBackendName, err = c.haproxy.Frontend().AcquireAuthBackendName(backend.BackendID())
 		if err != nil {
